@@ -21,7 +21,7 @@ from .shrink import shrink
 from .tape import Tape, hash64, replay_tape, TapeExhausted
 
 WORKERS = int(os.environ.get('VERIF_WORKERS', '16'))
-PER_INDEX_WATCHDOG = 120
+PER_INDEX_WATCHDOG = 300
 
 
 def load_prop(prop_id):
